@@ -1,3 +1,50 @@
+/-
+  C02 — Civil → instant conversion: UNIQUE / SKIPPED / REPEATED and pre/trans/post (table level,
+  the path that takes no 400-year shift; the shift path is `shift_statement`).
+-/
 import Cctz.Model.Tz
+import Cctz.Spec.TableSem
+import Cctz.Proofs.TableCivil
+
 namespace Cctz.C02
+open Cctz Cctz.Tz Cctz.Spec
+
+/-- the property's wording implies the predicate the case analysis needs -/
+def farApart_separated_statement : Prop :=
+  ∀ z : Zone, TableWF z → FarApart z →
+    (∀ i, i + 1 < z.transitions.size → timeOf z i + offOf z i < timeOf z (i + 1) + offOf z (i + 1)) →
+    Separated z
+
+/-- lookup(cs) classifies by the number of instants (over all integers) that display cs, and its
+three fields are those instants / the responsible change, clamped to the time_point range -/
+def makeTime_statement : Prop :=
+  ∀ (z : Zone) (h : Nat) (cs : Fields), TableWF z → CivilCols z → Separated z → Valid cs → NoShift z cs →
+    let r := (makeTime z h cs).val.1
+    let x := secNum cs
+    match r.kind with
+    | .unique => ∃ t, (∀ u, shows z u x ↔ u = t) ∧
+        r.pre = clamp64 t ∧ r.trans = clamp64 t ∧ r.post = clamp64 t
+    | .skipped => (∀ u, ¬ shows z u x) ∧ ∃ i, i < z.transitions.size ∧
+        r.trans = timeOf z i ∧ r.pre = x - offBefore z i ∧ r.post = x - offOf z i ∧
+        r.pre ≥ r.trans ∧ r.trans > r.post
+    | .repeated => ∃ i, i < z.transitions.size ∧
+        (∀ u, shows z u x ↔ u = x - offBefore z i ∨ u = x - offOf z i) ∧
+        r.trans = timeOf z i ∧ r.pre = x - offBefore z i ∧ r.post = x - offOf z i ∧
+        r.pre < r.trans ∧ r.trans ≤ r.post
+
+/-- the shift path: a civil second after the last generated year is looked up 400·s years
+earlier and the three instants are moved forward by s cycles with saturation at max() -/
+def shift_statement : Prop :=
+  ∀ (z : Zone) (h : Nat) (cs : Fields) (ly : Int), TableWF z → CivilSorted z → Valid cs →
+    z.extended = true → z.lastYear = some ly → cs.y > ly →
+    Civil.lt (trn z (z.transitions.size - 1)).prevCivilSec cs = true →
+    let s := (cs.y - ly - 1) / 400 + 1
+    let cs' : Fields := { cs with y := cs.y - 400 * s }
+    let r' := (makeTime z h cs').val.1
+    let r := (makeTime z h cs).val.1
+    ly - 400 < cs'.y ∧ cs'.y ≤ ly ∧ r.kind = r'.kind ∧
+    r.pre = (if s > 730692561 ∨ r'.pre + s * 12622780800 > i64max then i64max else r'.pre + s * 12622780800) ∧
+    r.trans = (if s > 730692561 ∨ r'.trans + s * 12622780800 > i64max then i64max else r'.trans + s * 12622780800) ∧
+    r.post = (if s > 730692561 ∨ r'.post + s * 12622780800 > i64max then i64max else r'.post + s * 12622780800)
+
 end Cctz.C02
